@@ -332,7 +332,10 @@ fn cmd_check(a: Args) -> i32
                 "same_system_two_kinds_one_tree": s.multi_kind_same_tree, "removal_reinsert_removal_between_polls": s.removal_reinsert_removal, "once_fired": s.once_fired,
                 "once_triggered_again_after_firing": s.once_retrigger_after_fire, "seven_or_more_reactors_on_one_key": s.reactors_per_key_ge7, "exclusive_reactor_bodies": s.excl_bodies,
                 "max_tree_depth": s.max_depth, "ewr_bodies": s.ewr_bodies, "ewr_no_data_accepted_A5": s.ewr_nodata_ok, "set_if_neq_equal": s.setifneq_equal, "set_if_neq_different": s.setifneq_diff, "syscall_family_calls": s.sys_calls,
-                "accessor_surface_ops": s.acc_ops, "single_accessors_with_exactly_one_holder": s.single_acc, "largest_bulk_release": s.max_bulk, "syscall_same_key_recursion": s.sys_recursive
+                "accessor_surface_ops": s.acc_ops, "single_accessors_with_exactly_one_holder": s.single_acc, "largest_bulk_release": s.max_bulk, "syscall_same_key_recursion": s.sys_recursive,
+                "deferred_world_actor_bodies": s.dw_bodies, "deferred_world_actor_own_command_postponed": s.dw_self_postponed, "deferred_world_actor_own_command_ran_at_once": s.dw_self_ran,
+                "removal_or_despawn_after_the_last_poll_of_its_tree": s.polled_after_last_poll, "syscall_callee_queuing_through_deferred_world": s.sys_dw_calls,
+                "direct_trigger_while_own_commands_pending_on_world_queue": s.trigger_raced_pending
             },
             "spec_choice_points": { "N1_sibling_order_not_first": s.sibling_reorder, "optional_delivery_taken": s.optional_taken, "optional_delivery_not_taken": s.optional_skipped, "N2_polled_reactions": s.polled_reactions },
             "not_judged_runs": total.inconclusive,
@@ -349,7 +352,7 @@ fn cmd_check(a: Args) -> i32
             "Bevy's command semantics: a system's commands apply in order, each fully, before the next",
             "single-threaded executor of the pinned feature set (no multi_threaded feature)",
             "generator bounds of DESIGN 2.1 (no duplicate live type-wide / despawn registration of one reactor across calls; ref-counted registration at most once per system; same-key recursion of the syscall family only as documented)",
-            "ambiguity rulings A1-A6 of DESIGN 4.3 (both behaviours accepted where the properties are silent; where collections happen is the implementation's choice)",
+            "ambiguity rulings A1-A7 of DESIGN 4.3 (both behaviours accepted where the properties are silent; where collections happen is the implementation's choice)",
             "the cfg(ukoehb_bevy_cobweb_verif) hooks report runner events and internal table sizes faithfully; the harness's own remove hook reports despawns of slot entities"
         ],
         "wall_s": wall,
